@@ -122,7 +122,14 @@ def step (s : S) (ws : List String) : S × String :=
       | .error _ => (s, "pvtext err")
       | .ok f =>
         let hex (t : PvText.Text) : String := Drivers.toHex (t.map Char.toNat)
-        (s, s!"pvtext {hex f.threadPrv} {hex f.cpuPrv} {hex f.threadPcf} {hex f.cpuPcf} {hex f.threadRow} {hex f.cpuRow}")
+        -- the event types the model's own reader (`parsePcfTypes`) finds in the two .pcf texts
+        let canon (t : PvText.Text) : String := match PvText.parsePcfTypes t with
+          | none => "none"
+          | some [] => "-"
+          | some bs => ";".intercalate (bs.map fun (ty, lab, vs) => s!"{ty}:{hex lab}:" ++
+              ",".intercalate (vs.map fun (v, l) => s!"{v}={hex l}"))
+        (s, s!"pvtext {hex f.threadPrv} {hex f.cpuPrv} {hex f.threadPcf} {hex f.cpuPcf} {hex f.threadRow} {hex f.cpuRow}" ++
+          s!" {canon f.threadPcf} {canon f.cpuPcf}")
   | ["pcf"] =>
     (s, "pcf " ++ ";".intercalate ((markPcf s.marktab).map fun (ty, title, ls) =>
       s!"{ty}:{Drivers.toHex (title.toList.map Char.toNat)}:" ++
